@@ -67,6 +67,10 @@ class LoggedStream(io.TextIOBase):
 
     def write(self, s):
         if s:
+            if self._name == "stdout" and getattr(self._k, "stdout_broken", False):
+                # the reader of Conductor's stdout is gone (`cond run | tee`, Ctrl-C kills tee first)
+                self._k.ev("stdout_epipe", text=s[:40])
+                raise BrokenPipeError(32, "Broken pipe")
             self._k.ev(self._name, text=s)
         return len(s)
 
@@ -158,6 +162,8 @@ def run_invocation(spec):
             lines["site"] = site
             kernel.ev("inject", sig=inject["signal"], site=site, func=code.co_name, live=[p.pid for p in kernel.running()],
                       zombies=[p.pid for p in kernel.procs.values() if p.state == "zombie"])
+            if inject.get("break_stdout"):
+                kernel.stdout_broken = True
             signal.raise_signal(sig_by_name[inject["signal"]])
             return None
         kernel.line_point()
